@@ -73,7 +73,10 @@ def policy_prog(kind, cfgname):
     slow = [{"k": "step", "fn": {"sleep": 3, "then": {"bytes": 10}}}]
     cfgs = {"tol1": ({"tol_n": 1}, [big, fail, big]), "pct50": ({"tol_pct": 50}, [big, fail, big]),
             "min2": ({"min": 2}, [big, big, slow]), "min2tol1": ({"min": 2, "tol_n": 1}, [fail, big, big]),
-            "first": ({"cc": "first"}, [[{"k": "step", "fn": {"bytes": 300_000}}], slow])}
+            "first": ({"cc": "first"}, [[{"k": "step", "fn": {"bytes": 300_000}}], slow]),
+            # early completion with branches that never started (max_concurrency below the branch count)
+            "min1maxc1": ({"min": 1, "maxc": 1}, [[{"k": "step", "fn": {"bytes": 300_000}}], slow, slow]),
+            "tol0maxc1": ({"tol_n": 0, "maxc": 1}, [fail, big, big])}
     cfg, branches = cfgs[cfgname]
     op = {"k": "par", "branches": branches, "cfg": dict(cfg)}
     return {"name": f"par[{cfgname};oversized]", "meta": {"policy": [[1]]}, "seq": [op] + TAIL}
@@ -104,7 +107,7 @@ def programs(tier):
         out.append(par_prog(kind, 300_000, "default"))
         out.append(par_prog(kind, 300_000, None, no_config=True))
         out.append(par_prog(kind, 140_000, None, no_config=True))
-    for cfgname in ("tol1", "pct50", "min2", "min2tol1", "first"):
+    for cfgname in ("tol1", "pct50", "min2", "min2tol1", "first", "min1maxc1", "tol0maxc1"):
         out.append(policy_prog("par", cfgname))
     for target in (RESP_SDK - 1, RESP_SDK, RESP_SDK + 1, RESP_HARD + 1):
         out.append(handler_prog(target, False))
